@@ -204,3 +204,9 @@ func MigNewP(name int, msg string, code int) error {
 	}
 	return e
 }
+
+// MovedLeaf is a type that only changed its package path ("errsim/elsewhere"
+// -> "errsim/gen"); its type string is the same before and after.
+type MovedLeaf struct{ Msg string }
+
+func (e MovedLeaf) Error() string { return e.Msg }
